@@ -45,6 +45,16 @@ KINDS = [
     "a NUMERICAL-HYGIENE change: reorder / regroup arithmetic for clarity or stability (np.hypot, np.subtract.outer, math.fsum, explicit float64 conversion, avoiding a needless sqrt or division) without changing results beyond the last bits",
 ]
 
+KINDS_B = [
+    "a FEATURE addition: one new optional keyword parameter of a public function / method of the anchored code, with a default that preserves today's behaviour exactly (for example `weights=None`, `return_indices=False`, `copy=True`, `dtype=None`, `tol=0.0`, `sort=True`, `out=None`, `axis labels`), threaded through to the private helpers that need it, documented in the docstring",
+    "a BUG-FIX attempt for a corner case the code handles clumsily today (empty or one-point input, NaN or duplicate points, a collection with one element, a zero-length bar, an already-computed / not-yet-computed object, a negative or zero parameter): explicit handling added at the right place, so that every input that worked before gives exactly the same result and the corner case gets a clean result or a clear exception",
+    "a PORTING change to current library APIs: deprecated or discouraged numpy / scipy / sklearn / matplotlib calls replaced by their modern equivalents (np.product -> np.prod, np.in1d -> np.isin, sklearn pairwise_distances -> scipy cdist or plain broadcasting, np.matrix idioms, `np.float`-style aliases, implicit array truthiness, matplotlib pyplot state -> explicit Axes methods, list(np...) -> .tolist()), results unchanged",
+    "a DIAGNOSTICS change: a `verbose` / logging path, warnings for suspicious input, internal sanity assertions of invariants the code relies on, a progress callback or timing hook - all silent and free of side effects by default, results unchanged",
+    "a READABILITY change: long functions split into two or three well-named steps, magic column indices replaced by named constants or tuple unpacking, variables renamed to say what they hold, independent statements reordered into a clearer sequence, nested conditionals flattened with early returns - results unchanged",
+]
+if letter >= "Q":
+    KINDS = KINDS_B
+
 for k, pr in enumerate(props):
     pid = pr["id"]
     if pid == "C05":
@@ -57,6 +67,9 @@ for k, pr in enumerate(props):
         fh.write(f"{pid}: {text}\n\n" + json.dumps(extra, indent=1, ensure_ascii=False) + "\n")
     kind = KINDS[(k + ord(letter)) % len(KINDS)]
     earlier = "\n".join("    " + x for x in slip_lines(pid)) or "    (none)"
+    invites = ("(a cache keyed by too little, a hoisted value that depended on the loop after all, a validation that rewrites the caller's array or silently changes dtype, a shared helper that ignores the one thing that differed, a regrouped expression that lost a term or a sign for one branch, a short-circuit taken in a case where it is not valid, a block boundary off by one, a pre-allocated buffer reused across calls)"
+               if letter < "Q" else
+               "(the new parameter not passed on along one of two call paths or shadowing an existing name, a default evaluated once and shared, the corner-case branch taken for inputs that are not the corner case, a 'modern equivalent' whose defaults or argument order differ from the old call, an assertion or log statement that consumes an iterator / mutates / reorders what it inspects, a step extracted into a helper that returns before the last statement of the old block, a renamed variable that still exists under its old name with a stale value, two 'independent' statements that were not independent)")
     prompt = f"""You are helping test verification tooling for the Python library scikit-tda/persim (persistence-diagram tools).
 You have your OWN scratch git worktree of the repository at /tmp/wt_{hid} (work ONLY there and in /tmp/ref_{hid}; never touch /repo or /verif, do not read anything under /verif, and do NOT use `git stash` - the stash is shared between worktrees; to undo use `git -C /tmp/wt_{hid} checkout -- .` or `git apply -R`).
 
@@ -64,7 +77,7 @@ The semantic property of interest is in /tmp/ref_{hid}/PROPERTY.txt - read it fi
 
 Your task has TWO parts that end up in ONE patch, the way a real regression arrives in a maintenance commit:
   PART 1 - {kind}. Size: 25-90 changed lines in the anchored code (the functions / methods the property names, and private helpers in the same module). Keep every public name, signature, default and return type. On its own PART 1 must not change behaviour: check it with a differential run of a few thousand random inputs (including empty, tied, negative, integer-typed, inf-containing inputs, non-default options, repeated calls) against a saved copy of the original module, comparing values, dtypes and exception types.
-  PART 2 - hidden inside that change, ONE small slip (1-4 lines) that BREAKS the property for some inputs / configuration / call sequence, while the module still imports and the ENTIRE existing test suite still passes. It must need something specific to manifest and it must look like an honest mistake of exactly the kind such a change invites (a cache keyed by too little, a hoisted value that depended on the loop after all, a validation that rewrites the caller's array or silently changes dtype, a shared helper that ignores the one thing that differed, a regrouped expression that lost a term or a sign for one branch, a short-circuit taken in a case where it is not valid, a block boundary off by one, a pre-allocated buffer reused across calls).
+  PART 2 - hidden inside that change, ONE small slip (1-4 lines) that BREAKS the property for some inputs / configuration / call sequence, while the module still imports and the ENTIRE existing test suite still passes. It must need something specific to manifest and it must look like an honest mistake of exactly the kind such a change invites {invites}.
 Earlier seeded changes for this property exist; yours must be different from them:
 {earlier}
   (these are the lines the earlier slips introduced; avoid both their place and their kind of mistake, and prefer a part of the anchored code - another function, another branch, another option - that few of them touched)
